@@ -43,18 +43,21 @@ def oracle_cases(tier, rng):
                 for mode in ('periodization', 'periodic', 'per'):
                     yield dict(check='pywt', wave=wn, J=J, H=H, W=W, mode=mode, seed=int(rng.integers(1 << 30)))
                 yield dict(check='shift', wave=wn, J=J, H=H, W=W, mode='periodization', sh=[int(rng.integers(H)), int(rng.integers(W))], seed=int(rng.integers(1 << 30)))
+    for (nb, C) in ((1, 70), (9, 2)):
+        for mode in ('periodization', 'per'):
+            yield dict(check='pywt', wave='db2', J=2, H=8, W=12, mode=mode, nb=nb, C=C, seed=int(rng.integers(1 << 30)))
     for (H, W) in [(5, 7), (6, 9)]:
         yield dict(check='shift', wave='db2', J=2, H=H, W=W, mode='periodization', sh=[2, 3], seed=int(rng.integers(1 << 30)))
 
 
 def strat_key(cfg):
-    return '%s/%s/J%d/%s' % (cfg['check'], cfg['wave'], cfg['J'], cfg['mode'])
+    return '%s/%s/J%d/%s' % (cfg['check'], cfg['wave'], cfg['J'], cfg['mode']) + ('/many%dx%d' % (cfg['nb'], cfg['C']) if cfg.get('C') else '')
 
 
 def oracle_run(cfg):
     from pytorch_wavelets.dwt.transform2d import SWTForward
     r = np.random.default_rng(cfg['seed'])
-    X = r.standard_normal((2, 2, cfg['H'], cfg['W']))
+    X = r.standard_normal((cfg.get('nb', 2), cfg.get('C', 2), cfg['H'], cfg['W']))
     m = SWTForward(J=cfg['J'], wave=cfg['wave'], mode=cfg['mode'])
     try:
         out = m(torch.tensor(X))
@@ -63,7 +66,7 @@ def oracle_run(cfg):
     if len(out) != cfg['J']:
         return dict(detail='%d levels returned' % len(out))
     for j, y in enumerate(out):
-        if tuple(y.shape) != (2, 2, 4, cfg['H'], cfg['W']):
+        if tuple(y.shape) != (cfg.get('nb', 2), cfg.get('C', 2), 4, cfg['H'], cfg['W']):
             return dict(detail='level %d has shape %s, expected (N,C,4,H,W) at full resolution' % (j + 1, tuple(y.shape)))
     if cfg['check'] == 'pywt':
         ref = pywt.swt2(X, cfg['wave'], level=cfg['J'], start_level=0, axes=(-2, -1))     # coarsest first
